@@ -820,7 +820,15 @@ class PyFat(object):
         eoc_max = cluster_vals["END_OF_CLUSTER_MAX"]
 
         i = first_cluster
-        while i <= len(self.fat):
+        visited = 0
+        while True:
+            if i < 0 or i >= len(self.fat):
+                raise PyFATException("Cluster chain points outside of the "
+                                     "FAT, cannot access file")
+            visited += 1
+            if visited > len(self.fat):
+                raise PyFATException("Loop detected in FAT cluster chain, "
+                                     "cannot access file")
             if min_data_cluster <= self.fat[i] <= max_data_cluster:
                 # Normal data cluster, follow chain
                 yield i
